@@ -188,6 +188,49 @@ func (cx *Ctx) transPrimKinds(f *ssa.Function) map[string]bool {
 
 // storeKeyPrefix resolves the prefix of the key argument of a store op.
 func (cx *Ctx) storeKeyPrefix(ci ssa.CallInstruction, kind string) []string {
+	return cx.storeKeyPrefixIn(ci, kind, nil)
+}
+
+// storeKeyPrefixOnChain: the prefix of a store access on one call chain. Where the
+// context-free answer is a union (the prefix is a parameter of a shared helper,
+// iterateQueue(ctx, prefix, op)), the chain's own argument decides.
+func (cx *Ctx) storeKeyPrefixOnChain(ci ssa.CallInstruction, kind string, fr *Frame) []string {
+	base := cx.storeKeyPrefix(ci, kind)
+	if len(base) < 2 || fr == nil {
+		return base
+	}
+	var conv func(f *Frame) *frame
+	conv = func(f *Frame) *frame {
+		if f == nil || f.Call == nil {
+			return nil
+		}
+		c, ok := f.Call.(*ssa.Call)
+		if !ok {
+			return nil
+		}
+		return &frame{call: c, parent: conv(f.Parent)}
+	}
+	lf := conv(fr)
+	if lf == nil {
+		return base
+	}
+	got := cx.storeKeyPrefixIn(ci, kind, lf)
+	if len(got) == 0 || len(got) >= len(base) {
+		return base
+	}
+	inBase := map[string]bool{}
+	for _, b := range base {
+		inBase[b] = true
+	}
+	for _, g := range got {
+		if !inBase[g] {
+			return base
+		}
+	}
+	return got
+}
+
+func (cx *Ctx) storeKeyPrefixIn(ci ssa.CallInstruction, kind string, kfr *frame) []string {
 	c := ci.Common()
 	var key ssa.Value
 	if c.IsInvoke() {
@@ -207,7 +250,7 @@ func (cx *Ctx) storeKeyPrefix(ci ssa.CallInstruction, kind string) []string {
 		key = c.Args[1]
 	}
 	set := map[string]bool{}
-	cx.keyPrefix(key, nil, 0, set)
+	cx.keyPrefix(key, kfr, 0, set)
 	// the store itself may be a prefix store
 	var st ssa.Value
 	if c.IsInvoke() {
@@ -349,7 +392,7 @@ func (cx *Ctx) keyPrefix(v ssa.Value, fr *frame, depth int, out map[string]bool)
 			cx.keyPrefix(e, fr, depth+1, out)
 		}
 	case *ssa.Parameter:
-		if fr != nil {
+		if fr != nil && (fr.call.Common().StaticCallee() == nil || fr.call.Common().StaticCallee() == x.Parent()) {
 			fn := x.Parent()
 			for i, p := range fn.Params {
 				if p == x && i < len(fr.call.Call.Args) {
@@ -549,7 +592,7 @@ func (cx *Ctx) iterPrefix(it ssa.Value, fr *frame, depth int, out map[string]boo
 		cx.iterPrefix(x.X, fr, depth+1, out)
 		return
 	case *ssa.Parameter:
-		if fr != nil {
+		if fr != nil && (fr.call.Common().StaticCallee() == nil || fr.call.Common().StaticCallee() == x.Parent()) {
 			fn := x.Parent()
 			for i, p := range fn.Params {
 				if p == x && i < len(fr.call.Call.Args) {
